@@ -92,7 +92,68 @@ func genDescription(r *rng) string {
 	}
 }
 
+// genFmtCollapse: bash / tcsh replace several candidates by their common prefix when that
+// prefix goes beyond what was typed; the prefix contains characters special to the shell and the
+// completion type varies (listing vs inserting), so the collapsed single text takes every branch.
+func genFmtCollapse(r *rng) fmtIn {
+	in := fmtIn{Shell: pick(r, []string{"bash", "bash", "tcsh"})}
+	common := pick(r, []string{"my file", "a$b", "x;y", "it's", `say "`, "a&b", "p(q", "dir/sub dir/", "k=v w", "été là", "a\\b", "tab*"})
+	n := 2 + r.intn(3)
+	for i := 0; i < n; i++ {
+		v := common + string(rune('a'+i)) + pick(r, []string{"", "x", " y", "/"})
+		in.Values = append(in.Values, fmtValue{Value: v, Display: v, Description: pick(r, []string{"", "desc"})})
+	}
+	cr := []rune(common)
+	in.Word = string(cr[:r.intn(len(cr))])
+	in.Meta.Nospace = pick(r, []string{"", "", "/", "*"})
+	if in.Shell == "bash" {
+		in.Env.BashCompType = pick(r, []string{"63", "63", "9", "", "33"})
+		if r.chance(30) {
+			wb := pick(r, []string{"\"'><=;|&(:", "=:", ""})
+			in.Env.Wordbreaks = &wb
+		}
+	}
+	return in
+}
+
+// genFmtWordbreak: bash and tcsh complete only the part of the word after the last
+// COMP_WORDBREAKS character; the typed word contains such characters and candidates extend it
+func genFmtWordbreak(r *rng) fmtIn {
+	in := fmtIn{Shell: pick(r, []string{"tcsh", "tcsh", "bash"})}
+	wb := pick(r, []string{"=:", "\"'><=;|&(:", "@", ":", " \t\n\"'><=;|&(:"})
+	in.Env.Wordbreaks = &wb
+	stem := pick(r, []string{"key=", "a:b:", "user@", "k=v:", "--flag=", "x=y=", "p:"})
+	n := 1 + r.intn(3)
+	for i := 0; i < n; i++ {
+		v := stem + pick(r, []string{"val", "v", "other", "va lue", "é"}) + itoa(i)
+		in.Values = append(in.Values, fmtValue{Value: v, Display: v, Description: pick(r, []string{"", "desc"})})
+	}
+	if r.chance(30) {
+		in.Values = append(in.Values, fmtValue{Value: "unrelated", Display: "unrelated"})
+	}
+	in.Word = stem + pick(r, []string{"", "v", "va"})
+	if r.chance(20) {
+		in.Word = stem[:len(stem)-1]
+	}
+	in.Meta.Nospace = pick(r, []string{"", "", "=", "*"})
+	if in.Shell == "bash" {
+		if r.chance(60) {
+			if i := strings.LastIndexAny(in.Word, "=:@"); i >= 0 && strings.ContainsAny(wb, in.Word[i:i+1]) {
+				in.Env.BashPrefix = in.Word[:i+1]
+			}
+		}
+		in.Env.BashCompType = pick(r, []string{"9", "", "63"})
+	}
+	return in
+}
+
 func genFmt(r *rng, tier string) interface{} {
+	if r.intn(25) == 0 {
+		return genFmtCollapse(r)
+	}
+	if r.intn(25) == 0 {
+		return genFmtWordbreak(r)
+	}
 	in := fmtIn{}
 	in.Shell = pick(r, allShells)
 	// exotic level: most cases have few special characters so that single features are isolated
@@ -161,6 +222,10 @@ func genFmt(r *rng, tier string) interface{} {
 		in.Meta.Messages = []string{genText(r, 10, 15), "second " + genText(r, 5, 10)}
 	case 3:
 		in.Meta.Messages = []string{"multi\nline " + genText(r, 4, 10), "x\x1b[31mred\x1b[0m", "tab\there"}
+	}
+	if len(in.Meta.Messages) > 0 && r.chance(25) {
+		// a partially typed error marker, and words that merely end in its letters
+		in.Word += pick(r, []string{"E", "ER", "ERR", "EE", "RE", "EER", "RER", "ERRR", "RR", "xR", "EERR", "_E", "ERE"})
 	}
 	in.Meta.Nospace = pick(r, []string{"", "", "", "/", "/=", "*", ":", "a", "/ ", "é"})
 	if r.chance(30) && len(in.Values) > 0 {
